@@ -934,6 +934,56 @@ async def script_vs_client_c2(s, phase, probes):
     await script_vs_client_c(s, phase, probes, 2)
 
 
+async def script_vs_client_d(s, phase, probes):
+    """Client session in which the server starts a re-key while authentication is running ('none' request
+    outstanding); the probes are injected while that exchange is open (before MiniSSH's KEX reply), i.e. while the
+    client defers every non-kex packet it wants to send."""
+    e = env()
+    asyncssh = e['asyncssh']
+    m = s.mini
+    e['cur'] = s
+    if 'cli_options' not in e:
+        e['cli_options'] = asyncssh.SSHClientConnectionOptions(
+            known_hosts=None, username='alice', client_keys=None, config=None, agent_path=None,
+            client_factory=lambda: _ENV['Cli'](), kex_algs=[KEX.decode()], encryption_algs=[ENC.decode()],
+            mac_algs=[MAC.decode()], compression_algs=['none'], server_host_key_algs=[HK.decode()],
+            preferred_auth=['password'], login_timeout=0, keepalive_interval=0, connect_timeout=None)
+
+    async def connect():
+        try:
+            conn = await asyncssh.connect('mem', 22, tunnel=s, options=e['cli_options'])
+            s.ev.append(('connect', 'ok', conn.get_extra_info('username')))
+            return conn
+        except Exception as exc:      # noqa
+            s.ev.append(('connect', exc_class(exc)))
+            return None
+    s.connect_task = asyncio.ensure_future(connect())
+    for _ in range(50):
+        if s.conn is not None:
+            break
+        await asyncio.sleep(0)
+    if s.conn is None:
+        raise Stop('connect', 'no-connection')
+    await s.until(lambda: m.peer_version is not None and m.peer_kexinit_payload is not None, 'version')
+    m.start_rekey()
+    await s.until(lambda: m.kex_count == 1, 'kex1')
+    await s.expect(M.MSG_SERVICE_REQUEST, 'service-request')
+    s.send(M.service_accept('ssh-userauth'))
+    await s.expect(M.MSG_USERAUTH_REQUEST, 'auth-none')
+    if probes:
+        m.hook = (31, probes)
+    m.start_rekey()
+    await s.until(lambda: m.kex_count == 2 and not m.kex_in_progress, 'rekey')
+    s.send(M.userauth_failure(['password']))
+    req = await s.expect(M.MSG_USERAUTH_REQUEST, 'auth-password')
+    s.send(M.userauth_success())
+    await s.until(lambda: s.connect_task.done(), 'connect-returns')
+    conn = s.connect_task.result()
+    if conn is None:
+        raise Stop('connect-returns', 'connect-failed')
+    await _client_tail(s, conn)
+
+
 async def _client_tail(s, conn):
     """After authentication (client endpoint): session channel, echo, close."""
     async def open_session():
@@ -1100,7 +1150,8 @@ async def run_session(role, strict, phase=None, probes=(), glue=None, pos=None, 
     script = script or script_of(phase)
     fn = {('server', 'A'): script_vs_server, ('client', 'A'): script_vs_client,
           ('server', 'B'): script_vs_server_b, ('client', 'B'): script_vs_client_b,
-          ('client', 'C1'): script_vs_client_c1, ('client', 'C2'): script_vs_client_c2}[(role, script)]
+          ('client', 'C1'): script_vs_client_c1, ('client', 'C2'): script_vs_client_c2,
+          ('client', 'D'): script_vs_client_d}[(role, script)]
     try:
         await fn(s, phase, [bytes(p) for p in probes])
     except Stop as st:
